@@ -53,6 +53,43 @@ theorem uri_unescape_escape (u : List Char) : unescapeUri (escapeUri u) = u := u
 /-- NumericRange: every valid range. -/
 theorem nr_roundtrip (r : NR) (h : ValidNR r) : parseNR (printNR r) = some r := nr_roundtrip' r h
 
+/-- all values fit `u32` (they are `u32` in the Rust type) -/
+def dimBounded : Dim → Prop
+  | .none => True
+  | .index n => n ≤ 4294967295
+  | .range a b => a ≤ 4294967295 ∧ b ≤ 4294967295
+
+def NRBounded : NR → Prop
+  | .one d => dimBounded d
+  | .multi ds => ∀ d ∈ ds, dimBounded d
+
+/-- NumericRange, stated with the crate's own validity function (current source): whatever
+`is_valid()` accepts prints to a text that parses back to it. -/
+theorem nr_roundtrip_is_valid (r : NR) (hb : NRBounded r) (hv : isValidNR true r = true) :
+    parseNR (printNR r) = some r := by
+  apply nr_roundtrip
+  cases r with
+  | one d =>
+    cases d with
+    | none => simp [ValidNR]
+    | index n => exact hb
+    | range a b =>
+      have h1 : a < b := by simpa [isValidNR, dimValid] using hv
+      have h2 : b ≤ 4294967295 := hb.2
+      exact ⟨h1, h2⟩
+  | multi ds =>
+    simp only [isValidNR, if_true, Bool.and_eq_true, decide_eq_true_eq, List.all_eq_true] at hv
+    refine ⟨hv.1.1, hv.1.2, ?_⟩
+    intro d hd
+    have h1 := hv.2 d hd
+    have h2 := hb d hd
+    cases d with
+    | none => simp [dimIndexOrRange] at h1
+    | index n => exact h2
+    | range a b =>
+      have : a < b := by simpa [dimIndexOrRange, dimValid] using h1
+      exact ⟨this, h2.2⟩
+
 /-- DateTime: every tick count from 1601-01-01T00:00:00Z to 9999-12-31T23:59:59Z prints (RFC 3339,
 0/3/6/9 fraction digits) to a text that parses back to exactly the same ticks (100 ns). -/
 theorem dt_roundtrip (t : Nat) (ht : t ≤ endTicks) : parsePrinted (printDateTime t) = some (some (t : Int)) :=
@@ -109,11 +146,13 @@ theorem C04_counterexample_exp_uri_drops_ns :
 theorem C04_counterexample_exp_empty_uri :
     parseExp (printExp ⟨⟨1, .numeric 5⟩, some [], 0⟩) = .ok ⟨⟨1, .numeric 5⟩, none, 0⟩ := by decide
 
-/-- `MultipleRanges` lists that `is_valid()` accepts but the text form cannot express:
-one element, no element, a `None` element -/
-theorem C04_counterexample_range_degenerate :
-    parseNR (printNR (.multi [.index 1])) = some (.one (.index 1)) ∧
-    parseNR (printNR (.multi [])) = some (.one .none) ∧
-    parseNR (printNR (.multi [.none, .index 1])) = none := by decide
+/-- pinned `is_valid()` accepted `MultipleRanges` lists that the text form cannot express (one element,
+no element, a `None` element); the current one rejects them -/
+theorem C04_counterexample_range_degenerate_pinned :
+    (isValidNR false (.multi [.index 1]) = true ∧ parseNR (printNR (.multi [.index 1])) = some (.one (.index 1))) ∧
+    (isValidNR false (.multi []) = true ∧ parseNR (printNR (.multi [])) = some (.one .none)) ∧
+    (isValidNR false (.multi [.none, .index 1]) = true ∧ parseNR (printNR (.multi [.none, .index 1])) = none) ∧
+    isValidNR true (.multi [.index 1]) = false ∧ isValidNR true (.multi []) = false ∧
+    isValidNR true (.multi [.none, .index 1]) = false := by decide
 
 end OpcuaVerif.C04
